@@ -32,6 +32,12 @@ impl SketchSlice<'_> {
         }
     }
 
+    /// Returns the number of bytes left to read.
+    pub fn remaining(&self) -> usize {
+        let len = self.slice.get_ref().len() as u64;
+        len.saturating_sub(self.slice.position()) as usize
+    }
+
     /// Advances the position of the slice by `n` bytes.
     pub fn advance(&mut self, n: u64) {
         let pos = self.slice.position();
